@@ -159,7 +159,16 @@ func (b *builder) grammar(n *parser.VerifNode) *Grammar {
 // token sequence of up to astK tokens (kinds symbolic); no sequence makes the actions panic.
 func harnessC11Typed() {
 	k := verif.Len("k", 0, astK)
-	toks := parser.VerifSymTokens(k)
+	checkTyped(parser.VerifSymTokens(k))
+}
+
+// harnessC11TypedBody: the same for one rule with an arbitrary body of up to astBodyK tokens.
+func harnessC11TypedBody() {
+	k := verif.Len("k", 0, astBodyK)
+	checkTyped(parser.VerifBodyTokens(k))
+}
+
+func checkTyped(toks []lexer.Token) {
 	parser.VerifSetLexer(toks)
 	g, err := Parse("f", nil)
 	tree, _ := parser.VerifRefParse(toks)
